@@ -45,6 +45,18 @@ def gen(ctx):
             for theta in [rnd.uniform(-7, 7), rnd.choice(range(-12, 13)) * math.pi / 6, rnd.uniform(-1e-6, 1e-6)]:
                 v = tuple(rnd.choice([rnd.uniform(-10, 10), 0.0, 1.0]) for _ in range(3))
                 out.append((theta, a, v, "family%s" % (signs,)))
+    # every non-zero axis, whatever its length: components far below and far above 1 (nothing in the function may compare a
+    # component with an absolute threshold), and axes whose components differ by many orders of magnitude
+    for scale in (1e-9, 1e-7, 1e-5, 1e5, 1e9):
+        for rep in range(12 if ctx.quick() else 200):
+            signs = rnd.choice([s for s in itertools.product((-1, 0, 1), repeat=3) if s != (0, 0, 0)])
+            a = tuple(s * scale * rnd.uniform(0.5, 9.5) for s in signs)
+            v = tuple(rnd.uniform(-10, 10) for _ in range(3))
+            out.append((rnd.uniform(-7, 7), a, v, "scaled%g" % scale))
+    for rep in range(20 if ctx.quick() else 300):
+        a = [rnd.uniform(-5, 5) for _ in range(3)]
+        a[rnd.randrange(3)] *= rnd.choice([1e-7, 1e-9, 1e-4])
+        out.append((rnd.uniform(-7, 7), tuple(a), tuple(rnd.uniform(-10, 10) for _ in range(3)), "mixed-magnitudes"))
     for _ in range(2000 if ctx.quick() else 100000):
         out.append((rnd.uniform(-10, 10), tuple(rnd.uniform(-5, 5) for _ in range(3)),
                     tuple(rnd.uniform(-20, 20) for _ in range(3)), "generic"))
@@ -61,7 +73,7 @@ def run(ctx):
         e = rodrigues(theta, a, v)
         scale = 1 + max(abs(x) for x in v)
         ctx.case((theta, a, v))
-        ctx.count(fam if fam == "generic" else "zero-component families")
+        ctx.count(fam if fam in ("generic", "mixed-magnitudes") or fam.startswith("scaled") else "zero-component families")
         if any(abs(x - y) > tol * scale for x, y in zip(r, e)):
             spec_bad.append((theta, a, v, r, e, fam))
     for c in cases[:3]:
